@@ -23,7 +23,7 @@ class Result(dict):
 
 def build(ctx, kind='asan'):
     return ctx.driver('ksi_exec', ['ksi_exec.c', 'ksi_exec_net.c'], kind=kind, curl='sim',
-                      wraps=['time', 'socket', 'connect', 'ioctl', 'setsockopt', 'poll', 'send', 'recv', 'close', 'getaddrinfo', 'freeaddrinfo'])
+                      wraps=['time', 'socket', 'connect', 'ioctl', 'setsockopt', 'poll', 'send', 'recv', 'close', 'getaddrinfo', 'freeaddrinfo', 'fopen'])
 
 
 class Exec:
